@@ -434,16 +434,39 @@ func (w *VerifC10World) checkRev(x Index, spill *MemoryIndex, tag string) {
 
 // ---------- H1: readers vs the map ----------
 
-// mem-probe: Decode(Encode(Writer index)) and the Writer's own index answer a
-// symbolic probe like the map.
+// verifC10SameIndex: the decoded index equals the Writer's index field by
+// field (so every lookup, a function of these fields, answers the same).
+func verifC10SameIndex(a, b *MemoryIndex) {
+	verifrt.Assert(a.Version == b.Version && a.Fanout == b.Fanout && a.FanoutMapping == b.FanoutMapping, "c10-decoded-equals-written-tables")
+	verifrt.Assert(a.idSize() == b.idSize(), "c10-decoded-equals-written-idsize")
+	same := len(a.Names) == len(b.Names) && len(a.Offset32) == len(b.Offset32) && len(a.CRC32) == len(b.CRC32) && len(a.Offset64) == len(b.Offset64)
+	verifrt.Assert(same, "c10-decoded-equals-written-shape")
+	if !same {
+		return
+	}
+	eq := verifrt.BytesEq(a.Offset64, b.Offset64)
+	for k := range a.Names {
+		eq = verifrt.And(eq, verifrt.BytesEq(a.Names[k], b.Names[k]))
+		eq = verifrt.And(eq, verifrt.BytesEq(a.Offset32[k], b.Offset32[k]))
+		eq = verifrt.And(eq, verifrt.BytesEq(a.CRC32[k], b.CRC32[k]))
+	}
+	verifrt.Assert(eq, "c10-decoded-equals-written-content")
+	verifrt.Assert(a.PackfileChecksum == b.PackfileChecksum && a.IdxChecksum == b.IdxChecksum, "c10-decoded-equals-written-checksums")
+}
+
+// mem-probe: Decode(Encode(Writer index)) equals the Writer's index field by
+// field and answers a symbolic probe like the map. Where the decoder refuses
+// the file (see all64) the Writer's own index is probed instead.
 func VerifHarness_C10_mem_probe() {
 	w := VerifC10NewWorld()
 	p := VerifC10Probe()
 	verifrt.Reach("c10-mem-probe")
-	w.checkProbe(w.W, p, "writer")
 	if m := w.decoded(); m != nil {
 		verifrt.Reach("c10-mem-probe-decoded")
+		verifC10SameIndex(m, w.W)
 		w.checkProbe(m, p, "mem")
+	} else {
+		w.checkProbe(w.W, p, "writer")
 	}
 }
 
@@ -789,7 +812,7 @@ func (w *VerifC10World) VerifC10EscapeOracle(v uint32, slots int, got uint64, er
 // package returns an error or the designated value; no out-of-range read
 // (a Go panic is a violation).
 func VerifHarness_C10_escape() {
-	n := verifrt.Range(1, verifrt.Param("N"))
+	n := verifrt.Range(verifrt.Param("NMIN"), verifrt.Param("N"))
 	w := VerifC10Build(VerifC10Entries(n, true))
 	id, v, slots := w.VerifC10Corrupt()
 	h := verifC10ID(id)
@@ -804,11 +827,16 @@ func VerifHarness_C10_escape() {
 		verifrt.Reach("c10-escape-decoded")
 		off, err = m.FindOffset(h)
 		w.VerifC10EscapeOracle(v, slots, uint64(off), err, "mem")
-		it, err := m.Entries()
-		verifrt.Assert(err == nil, "c10-escape-mem-entries")
+		// the prefix iterator has its own copy of the escape handling
+		it, err := m.EntriesWithPrefix(id[:1])
+		verifrt.Assert(err == nil, "c10-escape-mem-prefix-iter")
 		for i := 0; i <= n; i++ {
-			if _, err := it.Next(); err != nil {
+			e, err := it.Next()
+			if err != nil {
 				break
+			}
+			if verifrt.BytesEq(e.Hash.Bytes(), id) {
+				w.VerifC10EscapeOracle(v, slots, e.Offset, nil, "mem-prefix")
 			}
 		}
 	}
@@ -818,22 +846,19 @@ func VerifHarness_C10_escape() {
 		verifrt.Reach("c10-escape-lazy")
 		off, err = l.FindOffset(h)
 		w.VerifC10EscapeOracle(v, slots, uint64(off), err, "lazy")
-		_, _ = l.FindHash(verifrt.NondetInt64())
 	}
 }
 
 // VerifC10CorruptRev returns a copy of the .rev whose positions are replaced:
-// each is any of 0..n+1 (n and n+1 are out of range), 2^31-1 or 2^32-1,
+// each is any of 0..n (n is out of range) or 2^32-1,
 // concrete per path (a symbolic position is a symbolic slice bound / file
 // offset, which the engine enumerates value by value).
 func (w *VerifC10World) VerifC10CorruptRev() []byte {
 	n := len(w.E)
 	rev := append([]byte{}, w.Rev...)
 	for i := 0; i < n; i++ {
-		v := uint32(verifrt.Range(0, n+3))
-		if int(v) == n+2 {
-			v = 0x7fffffff
-		} else if int(v) == n+3 {
+		v := uint32(verifrt.Range(0, n+1))
+		if int(v) == n+1 {
 			v = 0xffffffff
 		}
 		copy(rev[12+4*i:], verifC10BE32(nil, v))
@@ -844,7 +869,7 @@ func (w *VerifC10World) VerifC10CorruptRev() []byte {
 // rev-lazy: a .rev whose positions are wrong or out of range never makes the
 // lazy reader read out of range or name an object that is not at that offset.
 func VerifHarness_C10_rev_lazy() {
-	n := verifrt.Range(1, verifrt.Param("N"))
+	n := verifrt.Range(verifrt.Param("NMIN"), verifrt.Param("N"))
 	w := VerifC10Build(VerifC10Entries(n, true))
 	rev := w.VerifC10CorruptRev()
 	l, err := NewLazyIndex(verifC10Opener(w.Idx), verifC10Opener(rev), w.Pack)
